@@ -585,11 +585,11 @@ func run(c *vm.Ctx) {
 		checkConn(c, cr)
 	}
 	sr := c.Rand("conn-staged")
+	tcp := openLoopback(c)
 	for i := 0; i < c.Scale(600, 16000); i++ {
-		checkConnStaged(c, sr)
+		checkConnStaged(c, sr, tcp)
 	}
 	dr := c.Rand("conn-duplex")
-	tcp := openLoopback(c)
 	for i := 0; i < c.Scale(400, 10000); i++ {
 		checkConnDuplex(c, dr, tcp)
 	}
